@@ -1,7 +1,7 @@
 """C06 — stream-level check (see DESIGN.md section 6)."""
 from lib import kv
 PID = "C06"
-LEVEL = "exploration"
+LEVEL = "proof"
 CMD = "c06"
 RULE = 'stream level: Write partitions (tiny, empty, block+1) must give the same stream; decoding from a source that delivers chunks of {1,2,3,5,7,8,9,10,13,100,1021,4093,4096} bytes (constant or mixed) with Read buffer sizes incl. 0 and jobs 1..5 must give the original. Bit stream level (c06bs): random read programs over short-read schedules compared with the extracted Coq model. Non-trivial = distinct stream.'
 
